@@ -52,6 +52,13 @@ UlLens == IF Full THEN 0 .. 49 \cup { 63, 64, 65, 96 } ELSE { 0, 1, 15, 16, 17, 
 UlSzx == IF Full THEN { 0, 1 } ELSE { 0 }
 UlDups == { 1, 2, 3 }
 UlAbandon == IF Full THEN 0 .. 6 ELSE { 0, 1, 3 }
+\* growth beyond C09: the non-final blocks after block 0 may arrive in any order (the final one last);
+\* order = a permutation of the block indices, identity for the in-order client
+Perms(n) == { f \in [1 .. n -> 1 .. n] : \A i, j \in 1 .. n : f[i] = f[j] => i = j }
+UlOrders(nblocks) == IF Mode = "ulperm" /\ nblocks >= 3 /\ nblocks <= 5
+                     THEN { [i \in 1 .. nblocks |-> IF i = 1 THEN 0 ELSE IF i = nblocks THEN nblocks - 1 ELSE f[i - 1]] :
+                              f \in Perms(nblocks - 2) }
+                     ELSE { [i \in 1 .. nblocks |-> i - 1] }
 
 VARIABLES cfg, st, pc, asm, app, nextB2, mid, blocks, viol, shaped, h, delivered, idx, rep
 vars == << cfg, st, pc, asm, app, nextB2, mid, blocks, viol, shaped, h, delivered, idx, rep >>
@@ -67,15 +74,16 @@ InitDl ==
   /\ pc = IF cfg.pre > 0 THEN "pre" ELSE "send"
 
 InitUl ==
-  /\ \E len \in UlLens, szx \in UlSzx, dups \in UlDups, ab \in UlAbandon :
-       cfg = [mode |-> "ul", pre |-> 0, body |-> Body(len, 2), other |-> Body(7 * SizeOf(szx) + 5, 9), szx |-> szx, dups |-> dups, abandon |-> ab,
+  /\ \E len \in UlLens, szx \in UlSzx, dups \in (IF Mode = "ulperm" THEN { 1 } ELSE UlDups), ab \in (IF Mode = "ulperm" THEN { 0 } ELSE UlAbandon) :
+     \E order \in UlOrders(IF len = 0 THEN 1 ELSE (len + SizeOf(szx) - 1) \div SizeOf(szx)) :
+       cfg = [mode |-> "ul", pre |-> 0, order |-> order, body |-> Body(len, 2), other |-> Body(7 * SizeOf(szx) + 5, 9), szx |-> szx, dups |-> dups, abandon |-> ab,
               M |-> NonPayload(MkReq(3, 1, Some([num |-> 300, more |-> TRUE, szx |-> szx]), None, << >>)) + 12 + SizeOf(szx) + 40]
   /\ nextB2 = None
   /\ pc = IF cfg.abandon > 0 THEN "abandon" ELSE "upload"
 
 Init == /\ st = EmptyEntry /\ asm = << >> /\ app = 0 /\ mid = 1 /\ blocks = 0 /\ viol = << >> /\ shaped = TRUE
         /\ h = << >> /\ delivered = << >> /\ idx = 0 /\ rep = 0
-        /\ IF Mode = "dl" THEN InitDl ELSE InitUl
+        /\ IF Mode \in {"dl", "dlre"} THEN InitDl ELSE InitUl
 
 Step(req, appv) == [op |-> "ireq", ep |-> "c", req |-> req, app |-> appv]
 NoApp == [some |-> FALSE]
@@ -171,6 +179,20 @@ DlPre ==
         ELSE pc' = "send" /\ nextB2' = None
      /\ UNCHANGED << cfg, asm, app, viol, shaped, delivered, idx, rep >>
 
+\* growth beyond C08: the client repeats its previous block request once (a lost reply); while the
+\* transfer is unfinished the handler must serve the same block again and the transfer still completes
+DlRetransmit ==
+  /\ Mode = "dlre" /\ pc = "send" /\ blocks > cfg.pre /\ rep = 0 /\ nextB2.some /\ nextB2.v.num > 0
+  /\ LET prev == [nextB2.v EXCEPT !.num = @ - 1]
+         req == MkReq(1, mid, None, Some(prev), << >>)
+         x == InterceptRequest(st, req, cfg.M)
+         fb == IF x.resp.some THEN FirstBlock(x.resp.v, OPT_BLOCK2) ELSE None
+         sz == SizeOf(prev.szx) IN
+     /\ st' = x.st /\ mid' = mid + 1 /\ rep' = 1 /\ h' = Append(h, Step(req, AppJson))
+     /\ viol' = viol \o Check(x.out = OkR(TRUE) /\ fb.some, "repeated block request not served from the cache")
+                     \o Check(x.resp.some /\ x.resp.v.pay = Chunk(cfg.body, prev.num, sz) /\ fb.some /\ fb.v.more, "repeated block differs")
+     /\ UNCHANGED << cfg, pc, asm, app, nextB2, blocks, shaped, delivered, idx >>
+
 \* after the final block the entry is released: the next request reaches the application
 DlAfter ==
   /\ pc = "after"
@@ -202,8 +224,9 @@ UlSend ==
   /\ LET sz == SizeOf(cfg.szx)
          n == NBlocks(cfg.body, sz)
          final == idx + 1 = n
-         b1 == [num |-> idx, more |-> ~final, szx |-> cfg.szx]
-         req == MkReq(3, mid, Some(b1), None, Chunk(cfg.body, idx, sz))
+         blk == cfg.order[idx + 1]
+         b1 == [num |-> blk, more |-> ~final, szx |-> cfg.szx]
+         req == MkReq(3, mid, Some(b1), None, Chunk(cfg.body, blk, sz))
          x == InterceptRequest(st, req, cfg.M)
          ack == IF x.resp.some THEN FirstBlock(x.resp.v, OPT_BLOCK1) ELSE None IN
      /\ mid' = mid + 1
@@ -212,7 +235,7 @@ UlSend ==
         THEN \* 2.31 Continue, not passed to the application, Block1 echoing number and size
              /\ viol' = viol \o Check(x.out = OkR(TRUE), "non-final block reached the application or failed")
                              \o Check(x.resp.some /\ x.resp.v.code = CODE_CONTINUE, "non-final block not answered 2.31")
-                             \o Check(ack.some /\ ack.v.num = idx /\ ack.v.szx = cfg.szx, "Block1 acknowledgement does not echo number and size")
+                             \o Check(ack.some /\ ack.v.num = blk /\ ack.v.szx = cfg.szx, "Block1 acknowledgement does not echo number and size")
                              \o Check(x.resp.some /\ x.resp.v.mid = req.mid /\ x.resp.v.tok = req.tok, "reply identity")
              /\ st' = x.st /\ h' = Append(h, Step(req, NoApp)) /\ app' = app /\ delivered' = delivered
              /\ IF rep + 1 < cfg.dups THEN rep' = rep + 1 /\ idx' = idx /\ pc' = "upload"
@@ -228,14 +251,14 @@ UlSend ==
              /\ st' = y.st /\ pc' = "done" /\ idx' = idx /\ rep' = rep
              /\ h' = Append(h, Step(req, [some |-> TRUE, v |-> [code |-> 68, pay |-> << >>, opts |-> << >>]]))
 
-Next == IF Mode = "dl" THEN DlPre \/ DlSend \/ DlAfter ELSE UlAbandonStep \/ UlSend
+Next == IF Mode \in {"dl", "dlre"} THEN DlPre \/ DlSend \/ DlRetransmit \/ DlAfter ELSE UlAbandonStep \/ UlSend
 Spec == Init /\ [][Next]_vars /\ WF_vars(Next)
 
 (* ------------------------------ properties ----------------------------------------- *)
 NoViolation == viol = << >>
-Reassembled == (Mode = "dl" /\ pc \in {"after", "done"}) => asm = cfg.body
-AppOnce     == Mode = "dl" => (app <= 1 /\ (pc \in {"after", "done"} => app = 1))
-Delivered   == (Mode = "ul" /\ pc = "done") => delivered = << cfg.body >>
+Reassembled == (Mode \in {"dl", "dlre"} /\ pc \in {"after", "done"}) => asm = cfg.body
+AppOnce     == Mode \in {"dl", "dlre"} => (app <= 1 /\ (pc \in {"after", "done"} => app = 1))
+Delivered   == (Mode \in {"ul", "ulperm"} /\ pc = "done") => delivered = << cfg.body >>
 NeverFails  == pc # "fail"
 Completes   == <>(pc = "done")
 
